@@ -299,7 +299,9 @@ func hostileInputs() []string {
 		` "2015-08-01"`, `"2015-08-01" `, "\"2015-08-01\"\n", `"2015-08-01""`, `""2015-08-01"`, "\x00", "\xff\xfe", `"2015-08-01"`, `"20150801"`, `"0000-00-00"`, `"9999-12-31T23:59:59.999999999+14:00"`, `"0001-01-01T00:00:00-12:00"`}
 	// zone displacements at and beyond what a time zone can have (Go's layouts let 24 hours and 60 minutes through)
 	out = append(out, `"12:34:56+24:60"`, `"12:34:56+05:60"`, `"12:34:56-24"`, `"12:34:56+16:00"`, `"12:34:56+23:59:60"`, `"12:34:56+15:59"`, `"12:34:56-15:59:59"`, `"12:34:56+15"`, `"12:34:56+16"`,
-		`"2015-08-01T12:34:56-24:60"`, `"2015-08-01T12:34:56+05:60"`, `"2015-08-01T12:34:56+15:59"`, `"2015-08-01T12:34:56-16:00"`, `"2015-08-01T12:34:56+24"`, `"2015-08-01T12:34:56+00:00:60"`)
+		`"2015-08-01T12:34:56-24:60"`, `"2015-08-01T12:34:56+05:60"`, `"2015-08-01T12:34:56+15:59"`, `"2015-08-01T12:34:56-16:00"`, `"2015-08-01T12:34:56+24"`, `"2015-08-01T12:34:56+00:00:60"`,
+		// more offset fields than hh:mm:ss
+		`"12:34:56+01:00:00:00"`, `"2015-08-01T12:34:56+05:30:15:00"`, `"12:34:56-01:02:03:04:05"`)
 	// a quote at one end only, around text that would be a valid value: not a JSON string
 	for _, v := range []string{"2015-08-01", "12:34:56", "12:34:56+01:00", "2015-08-01T12:34:56", "2015-08-01T12:34:56+05:30"} {
 		out = append(out, `x`+v+`"`, `"`+v+`x`, v+`"`, `"`+v, `1`+v+`"`, `"`+v+`1`, `'`+v+`"`, `"`+v+`'`, v)
